@@ -129,6 +129,9 @@ def gen_value_case(ch):
     inputs = []
     if f.kind == 'str':
         nbytes = f.nbits // 8
+        if compressed and ch.bool(1, 6):
+            # a character column that is missing in every subset
+            return ValueCase(mv, ids, pos, [None] * nsub, compressed, ch.choice([4, 3]))
         for _ in range(nsub):
             k = ch.weighted([(3, 'short'), (2, 'exact'), (2, 'long'), (1, 'missing'), (1, 'empty')])
             if k == 'missing':
